@@ -168,6 +168,14 @@ proof_eval! {
 }
 
 proof_eval! {
+    fn knnk_black_to_move() {
+        let (hm, ck) = terminal_check(false, &[(0, 2), (0, 2)], "c05 knnk_black_to_move");
+        kani::cover!(!hm && ck, "checkmate position in the family");
+        kani::cover!(hm && ck, "check with an escape");
+    }
+}
+
+proof_eval! {
     fn kbbk_black_to_move() {
         let (hm, ck) = terminal_check(false, &[(0, 3), (0, 3)], "c05 kbbk_black_to_move");
         kani::cover!(!hm && ck, "checkmate position in the family");
